@@ -3,12 +3,14 @@ import SerfModel.Check.C20
 import SerfModel.Model.ERat
 import SerfModel.Gen.CoordFormula
 /-!
-C21 checker.  Op: `dist <coordA> <coordB>` => `ns <d(a,b)> <d(b,a)>` | `panic-dim`.
+C21 checker.  Ops: `dist <coordA> <coordB>` => `ns <d(a,b)> <d(b,a)>` | `panic-dim`;
+`law <x> <y>` => bits of x+y, y+x, (x-y)², (y-x)² (the `CommLaws` facts, judged on the real float64 results).
 Model output: `Coordinate.DistanceTo` of the model in both directions (Float instance, bit for bit).
 Monitor (on the implementation's outputs, its own exact-arithmetic bookkeeping): for pairs in the property's
-scope (finite, equal dimension, heights ≥ 0, |components|, heights ≤ 10^4 s) the result is non-negative, both
-directions agree within 1 ns, and it is within 1 ns of the documented formula evaluated in EXACT rational
+scope (finite, equal dimension, heights ≥ 0, |components|, heights ≤ 10^4 s) the result is non-negative and it is
+within 1 ns of the documented formula evaluated in EXACT rational
 arithmetic (square root bracketed to 10^-20); different dimensions must give the dimensionality error.
+For EVERY pair (in scope or not) both directions must agree exactly (C21_symm).
 The formula the documentation states (Gen.CoordFormula.docs) is evaluated as well.
 -/
 namespace SerfModel.Check.C21
@@ -54,6 +56,8 @@ def judge (a b : Coordinate Float) (impl : String) : Option (String × String) :
   | ["ns", sab, sba] =>
     match parseInt? sab, parseInt? sba with
     | some ab, some ba =>
+      -- exact symmetry (theorem C21_symm) is judged on EVERY pair, in scope or not
+      if ab != ba then some ("asymmetric", s!"d(a,b) = {ab} ns but d(b,a) = {ba} ns") else
       -- the documentation's example, as written
       let docsNs := SerfModel.Gen.CoordFormula.docs.evalNs a b
       let docsFixed := ({ SerfModel.Gen.CoordFormula.docs with conv := .scaleThenTruncate } : Formula).evalNs a b
@@ -64,22 +68,29 @@ def judge (a b : Coordinate Float) (impl : String) : Option (String × String) :
         else some ("docs-formula-differs", s!"documented formula gives {docsFixed} ns, DistanceTo {ab} ns")
       if !(inScope a && inScope b) then docsM else
       let hugeAdj := decide (absF a.adjustment > million) || decide (absF b.adjustment > million)
-      -- exact reference
-      match distSeconds (eratCoord a) (eratCoord b) with
-      | .fin q =>
-        let exactNs : Rat := q * (1000000000 : Nat)
-        let t : Int := exactNs.num.tdiv exactNs.den
+      -- exact reference: the unadjusted and the adjusted distance in exact rational arithmetic
+      let ea := eratCoord a
+      let eb := eratCoord b
+      match rawDistanceTo ea eb, FloatLike.add (rawDistanceTo ea eb) (FloatLike.add ea.adjustment eb.adjustment) with
+      | .fin rawE, .fin adjE =>
+        let q : Rat := if 0 < adjE then adjE else rawE
+        let truncNs (x : Rat) : Int := let y : Rat := x * (1000000000 : Nat); y.num.tdiv y.den
+        let t : Int := truncNs q
+        -- the formula is discontinuous where the adjusted distance is 0: within the accumulated rounding error of
+        -- that threshold (cf. `Margin` in C21_accuracy_rounding) either branch is a correct rounding
+        let scale : Rat := rawE + ratAbs (match ea.adjustment with | .fin x => x | _ => 0) + ratAbs (match eb.adjustment with | .fin x => x | _ => 0)
+        let nearGuard : Bool := decide (ratAbs adjE * (35184372088832 : Nat) ≤ scale)   -- 2^45
         if t ≥ 9223372036854775807 then
-          (if ab < 0 || ba < 0 then some ("negative-rtt-adjustment-overflow", s!"exact distance {t} ns exceeds int64: DistanceTo returns {ab} ns")
+          (if ab < 0 then some ("negative-rtt-adjustment-overflow", s!"exact distance {t} ns exceeds int64: DistanceTo returns {ab} ns")
            else none)
-        else if ab < 0 || ba < 0 then some ("negative-rtt", s!"d(a,b) = {ab} ns, d(b,a) = {ba} ns")
-        else if hugeAdj then
-          (if intAbs (ab - ba) > 1 then some ("asymmetry-huge-adjustment", s!"d(a,b) = {ab} ns, d(b,a) = {ba} ns with an adjustment beyond 10^6 s")
-           else docsM)
-        else if intAbs (ab - ba) > 1 then some ("asymmetric", s!"d(a,b) = {ab} ns but d(b,a) = {ba} ns")
+        else if ab < 0 then some ("negative-rtt", s!"d(a,b) = {ab} ns")
+        else if hugeAdj then docsM
+        else if nearGuard then
+          (if intAbs (ab - truncNs rawE) ≤ 1 || (decide (0 < adjE) && intAbs (ab - truncNs adjE) ≤ 1) || intAbs ab ≤ 1 then docsM
+           else some ("formula-mismatch", s!"DistanceTo = {ab} ns, near the guard threshold; exact unadjusted {truncNs rawE} ns, exact adjusted {truncNs adjE} ns"))
         else if intAbs (ab - t) > 1 then some ("formula-mismatch", s!"DistanceTo = {ab} ns, documented formula in exact arithmetic = {t} ns")
         else docsM
-      | _ => some ("exact-not-finite", "exact evaluation of an in-scope pair is not finite")
+      | _, _ => some ("exact-not-finite", "exact evaluation of an in-scope pair is not finite")
     | _, _ => some ("malformed", impl)
   | _ => some ("dist-failed", s!"DistanceTo on compatible coordinates answered {impl}")
 
@@ -92,6 +103,21 @@ def step (s : Unit) (op : List String) (impl : String) : LineOut Unit :=
         | .ok x, .ok y => s!"ns {x} {y}"
         | _, _ => "panic-dim"
       { state := s, model := some out, monitor := judge a b impl }
+    | _, _ => { state := s, model := some "bad-op" }
+  | ["law", x, y] =>
+    match floatOfHex? x, floatOfHex? y with
+    | some x, some y =>
+      let d1 := x - y
+      let d2 := y - x
+      let out := s!"{showFloatBits (x + y)} {showFloatBits (y + x)} {showFloatBits (d1 * d1)} {showFloatBits (d2 * d2)}"
+      -- the monitor judges the laws on the implementation's own float64 results
+      let m := match impl.splitOn " " with
+        | [s1, s2, q1, q2] =>
+          if s1 != s2 then some ("law-add-comm", s!"x + y = {s1} but y + x = {s2}")
+          else if q1 != q2 then some ("law-sub-sq-comm", s!"(x-y)^2 = {q1} but (y-x)^2 = {q2}")
+          else none
+        | _ => some ("malformed", impl)
+      { state := s, model := some out, monitor := m }
     | _, _ => { state := s, model := some "bad-op" }
   | _ => { state := s, model := some "bad-op" }
 
